@@ -54,6 +54,7 @@ class Check:
         self.extra: dict = {}
         self.tlc_runs: list[dict] = []
         self.notes: list[str] = []
+        self.replay_key: dict | None = None
 
     # -- coverage ---------------------------------------------------------------------------
     def add_tlc(self, name: str, res) -> None:
@@ -74,7 +75,28 @@ class Check:
         """Record a layer-A rejection with its diagnosis key and replay payload."""
         self.rejections.append({"key": key, "replay": replay, "what": what})
 
+    def _finish_replay(self) -> int:
+        same = [r for r in self.rejections if canon(r["key"]) == canon(self.replay_key)]
+        if not same:
+            log(f"replay: no rejection with key {canon(self.replay_key)} among {len(self.rejections)} rejection(s) "
+                f"of this run - the class recorded in the replay file does not reproduce")
+            return 0
+        d = REPLAYS / self.prop
+        d.mkdir(parents=True, exist_ok=True)
+        path = d / f"{sha(same[0]['replay'])}.json"
+        path.write_text(json.dumps({"property": self.prop, "key": same[0]["key"], "what": same[0]["what"],
+                                    "replay": same[0]["replay"]}, indent=1, default=str))
+        log(f"replay: reproduced x{len(same)}: {same[0]['what'][:600]}")
+        f = match_known(self.prop, same[0]["key"], load_known())
+        if f is not None:
+            print(f"KNOWN-FINDING: property={self.prop} {f['id']}: {f['what']} [{len(same)} rejection(s)]")
+            return 0
+        print(f"VIOLATION property={self.prop} replay={path}")
+        return 1
+
     def finish(self) -> int:
+        if self.replay_key is not None:
+            return self._finish_replay()
         d0 = REPLAYS / self.prop
         if d0.exists():
             for old in d0.glob("*.json"):
